@@ -218,7 +218,7 @@ def gen_run_scenario(rng, tier, nfiles=1, seq=0.3, constraint=0.3, empty=0.15,
         scn['constraints'] = [K.gen_since(rng, all_times, kind)]
         scn['global'] = 0
     if rng.random() < 0.3:
-        scn['decode_errors'] = rng.choice(['ignore', 'replace', 'backslashreplace'])
+        scn['decode_errors'] = rng.choice(['ignore', 'replace', 'backslashreplace', 'surrogateescape'])
     if nfiles > 1:
         scn['max_parallel_tasks'] = rng.choice([0, 1, 2, 3, 8, 16])
     return scn
